@@ -128,6 +128,51 @@ fn resp_all_statuses(out: &mut Out) {
     }
 }
 
+/// One status line with a single corrupted field (rel), for the idx-th registered status, in a single-part or a
+/// multipart document.  Nothing is emitted when the corruption cannot be built (a one-character phrase cannot lose a
+/// word) or when it happens to equal the registered phrase.
+fn resp_status_line(c: &Value) -> Option<Value> {
+    let list = Response::status_code_reason_phrase_list();
+    let idx = c["idx"].as_u64().unwrap() as usize;
+    if idx == 0 || idx > list.len() {
+        return None;
+    }
+    let st = &list[idx - 1];
+    let code = *st.status_code;
+    let phrase = st.reason_phrase.to_string();
+    let other = list[idx % list.len()].reason_phrase.to_string();
+    let rel = c["rel"].as_str().unwrap();
+    let (wcode, wphrase): (i64, String) = match rel {
+        "exact" => (code as i64, phrase.clone()),
+        "other_phrase" => (code as i64, other),
+        "truncated_char" => (code as i64, phrase[..phrase.len() - 1].to_string()),
+        "truncated_word" => (code as i64, phrase.rsplit_once(' ').map(|(a, _)| a.to_string())?),
+        "extended_char" => (code as i64, format!("{}Y", phrase)),
+        "extended_word" => (code as i64, format!("{} Indeed", phrase)),
+        "empty_phrase" => (code as i64, String::new()),
+        "case_changed" => (code as i64, phrase.to_lowercase()),
+        "unregistered_code" => {
+            let mut k = code as i64 + 1;
+            while list.iter().any(|s| *s.status_code as i64 == k) {
+                k += 1;
+            }
+            (k, phrase.clone())
+        }
+        _ => return None,
+    };
+    if rel != "exact" && rel != "unregistered_code" && wphrase == phrase {
+        return None;
+    }
+    let doc = if c["frame"] == "multi" {
+        format!("HTTP/1.1 {} {}\r\nContent-Type: multipart/byteranges; boundary=String_separator\r\n\r\n--String_separator\r\nContent-Type: text/plain\r\nContent-Range: bytes 0-1/10\r\n\r\nab\r\n--String_separator\r\nContent-Type: text/plain\r\nContent-Range: bytes 4-5/10\r\n\r\nef\r\n--String_separator", wcode, wphrase)
+    } else {
+        format!("HTTP/1.1 {} {}\r\nContent-Type: text/plain\r\nContent-Range: bytes 0-2/2\r\nContent-Length: 2\r\n\r\nhi", wcode, wphrase)
+    };
+    let dd = doc.clone().into_bytes();
+    let obs = outcome3(guarded(move || Response::parse(&dd)), |_p| json!({}));
+    Some(json!({"op":"resp_status_line","rel":rel,"frame":c["frame"],"status":code,"line":format!("HTTP/1.1 {} {}", wcode, wphrase),"obs":obs}))
+}
+
 fn resp_corrupt(c: &Value) -> Vec<Value> {
     // corruptions of a valid serialisation; the class names what was broken
     let single = b"HTTP/1.1 200 OK\r\nContent-Type: text/plain\r\nContent-Range: bytes 0-2/2\r\nContent-Length: 2\r\n\r\nhi".to_vec();
@@ -284,6 +329,11 @@ pub fn run(o: &Opts) -> i32 {
                 "line" => out.emit(&req_line(c)),
                 "resp" => out.emit(&resp_roundtrip(c)),
                 "resp_all_statuses" => resp_all_statuses(&mut out),
+                "resp_status_line" => {
+                    if let Some(e) = resp_status_line(c) {
+                        out.emit(&e);
+                    }
+                }
                 "resp_corrupt" => {
                     for e in resp_corrupt(c) {
                         out.emit(&e);
